@@ -202,3 +202,12 @@ contract(
                 "earlier = d.get_plc_info()", "d._info = earlier",
                 "expect = spec.identity.identity_view(1, 14, 56, major, minor, status, serial, name)"],
     ensures=["all(result[k] == expect[k] for k in expect)", "len(t.sent) == 2"], props=["C14", "C16"])
+
+# a refused typed request: the Tag carries the target's status text (the reply data, if any, is not decoded into a value)
+contract(
+    id="generic.typed.refused", func="pycomm3.cip_driver.CIPDriver.generic_message",
+    call="d.generic_message(service=0x0e, class_code=1, instance=1, attribute=1, data_type=dtype, name='x')",
+    bind={"path": ["'10.0.0.1'"], "dtype": ["pycomm3.cip.data_types.UINT", "pycomm3.cip.data_types.STRING"], "status": ["5", "8", "0x16"]},
+    params={"session": P.int(1, 0xFFFFFFFF), "cid": P.bytes(len=4), "junk": P.bytes(maxlen=4)},
+    setup=DRV + ["t = spec.env.Transport([spec.msgrouter.connected_reply(0x0e, status, junk)])", "d._sock = t"],
+    ensures=["not bool(result)", "result.value is None", "spec.encap.names_status(result.error, status)"], props=["C14", "C13"])
